@@ -7,7 +7,7 @@ TRACE_CFG = ['SPECIFICATION TraceSpec', 'CONSTRAINT Progress', 'POSTCONDITION Tr
 WENTRIES = ["wt_plain", "wt_bufio", "wt_buffer", "marshal"]
 RENTRIES = ["rf_bufio", "rf_buffer", "rf_plain", "unmarshal"]
 PRIORS = ["fresh", "other", "same"]
-CHUNKS = ["whole", "one", "half", "rand", "dataerr"]
+CHUNKS = ["whole", "one", "half", "rand", "dataerr", "buf17", "buf100"]
 
 
 def sconsts(objs, maxwire):
@@ -77,7 +77,7 @@ def _run_stream(ctx):
     c = sconsts(objs, 1)
     c['LenOf'] = Raw("[o \\in mc_Objs |-> 8]")
     if ctx.quick:   # quick: every object x entries; priors/chunkings on a rotating subset
-        c['Chunks'] = set(["whole", "one", "rand"]); c['Priors'] = set(["fresh", "other"])
+        c['Chunks'] = set(["whole", "one", "rand", "buf17"]); c['Priors'] = set(["fresh", "other"])
     write_mc(d, 'MC_StreamGen', 'StreamGen', c, ['SPECIFICATION GSpec', 'INVARIANT Emit', 'INVARIANT Composable'])
     r = tlc(d, 'MC_StreamGen', timeout=1500)
     ctx.add_mc(r, 'StreamGen single-object scenarios')
